@@ -1,6 +1,7 @@
 """C12 - no false syntax errors (DESIGN §2 C12).  Reference-model monitor: CPython V (and 3.8 for
 sense (a)) compile servers; parso side observed through a recording contract on Grammar.iter_errors."""
 import random
+import re
 
 from .. import contracts, harness
 from ..gen import text as G
@@ -104,6 +105,36 @@ def _mech(m, pos):
             d['in_comprehension'] = True
             break
         n = n.parent
+    # facts about the innermost function: an await inside a local annotation (CPython's symbol table then treats the function as a
+    # coroutine although the annotation is never compiled); are all its yields inside comprehensions (own scopes up to 3.7)?
+    if scope is not None and scope.type == 'funcdef':
+        def inside(x, types, stop):
+            x = x.parent
+            while x is not None and x is not stop:
+                if x.type in types:
+                    return x
+                x = x.parent
+            return None
+        st, aw_ann, ys, ys_comp = [scope.children[-1]], False, 0, 0
+        while st:
+            x = st.pop()
+            if x.type in ('funcdef', 'classdef', 'lambdef') and x is not scope:
+                continue
+            if x.type == 'keyword' and x.value == 'await':
+                a = inside(x, ('annassign',), scope)
+                if a is not None and len(a.children) > 1 and a.children[1].start_pos <= x.start_pos < a.children[1].end_pos:
+                    aw_ann = True
+            if x.type == 'keyword' and x.value == 'yield':
+                ys += 1
+                c = inside(x, ('testlist_comp', 'dictorsetmaker', 'argument'), scope)
+                while c is not None and not any(ch.type in ('comp_for', 'sync_comp_for') for ch in c.children):
+                    c = inside(c, ('testlist_comp', 'dictorsetmaker', 'argument'), scope)
+                if c is not None:
+                    ys_comp += 1
+            st.extend(getattr(x, 'children', ()) or ())
+        d['scope_has_await_in_local_annotation'] = aw_ann
+        d['scope_yields'] = ys
+        d['scope_yields_in_comprehensions'] = ys_comp
     # dead code: inside an if/while branch that a constant test rules out
     def const(t):
         """truth value of a test made only of literals and operators (what a constant folder can decide), else None"""
@@ -229,6 +260,15 @@ def judge(ctx, v, text, ok_v, ok_38, origin):
     ff = [k + 1 for k, l in enumerate(lines) if '\x0c' in l[:len(l) - len(l.lstrip(' \t\x0c'))]
           and l.strip(' \t\x0c\r\n') and not l.lstrip(' \t\x0c').startswith('#')]
     common = dict(version_tuple=[int(z) for z in v.split('.')], first_formfeed_indent_line=ff[0] if ff else None)
+    # first line on which an f-string is open (or opened) and a backslash stands directly before a brace: from there on parso and
+    # CPython read the text differently (F-C12-1)
+    _seen_f = False
+    for k, l in enumerate(lines):
+        if re.search(r'(?i)(?<![a-z0-9_])(f|rf|fr)("|\')', l):
+            _seen_f = True
+        if _seen_f and ('\\{' in l or '\\}' in l):
+            common['fstring_backslash_brace_first_line'] = k + 1
+            break
     if ok_38:
         ctx.count('sense_a_programs')
         if err is not None:
